@@ -152,8 +152,9 @@ func vxIsInstance(v value.Value, t string) (is bool, known bool) {
 			return true
 		}
 		if v.IsReference() {
-			_, ok := v.AsReference().(*value.BigInt)
-			return ok
+			// an Int is a SmallInt or a BigInt that does not fit a machine word (one representation per integer)
+			b, ok := v.AsReference().(*value.BigInt)
+			return ok && !b.ToGoBigInt().IsInt64()
 		}
 		return false
 	}
@@ -215,9 +216,9 @@ func vxSweep(classIdx int, checkReturn bool, tag string) {
 	i := vxSplit("method", n)
 	reg := vxNativeNameAt(sw.init, i)
 	method, overload := vxSplitOverload(reg)
-	if (method == "*" || method == "**") && sw.self != "Float" {
+	if ((method == "*" || method == "**") && sw.self != "Float") || ((method == "/" || method == "%") && sw.self == "Int") {
 		// products and powers of two symbolic big integers are outside the bit-vector back end;
-		// exactness and normalisation of Int * and ** are C06's subject (integer back end), the
+		// exactness and normalisation of Int * ** / % are C06's subject (integer back end), the
 		// fixed-width ones C07's
 		vxNote("arithmetic native covered by C06/C07 instead (skipped): " + sw.self + "#" + reg)
 		vxCover(tag + "/skipped")
